@@ -795,10 +795,9 @@ Lemma get_invocation_fb b : get_invocation b = inv_of_params (sg_params (fb_sig 
 Proof.
   unfold fb_sig, mk_sig. cbn [sg_params]. rewrite mk_params_sparams.
   rewrite inv_of_params_structured by (try apply seg_P; try apply seg_VA; try apply seg_KP; try apply seg_VK).
-  unfold get_invocation, inv_of. rewrite pos_params_names. rewrite !map_map. simpl. rewrite map_id.
+  unfold get_invocation, inv_of. rewrite pos_params_names. rewrite !map_map. simpl.
   f_equal.
   - destruct (fb_varargs b); reflexivity.
-  - rewrite <- (map_id (fb_kwonly b)) at 1. rewrite map_map. reflexivity.
   - destruct (fb_varkw b); reflexivity.
 Qed.
 
